@@ -770,6 +770,48 @@ theorem tree_counters (N : Net) (h : GInv N) (p : Path) (ht : Terminal (N.cfg p)
 
 
 
+/-! ### isolation of the counters -/
+
+/-- the prometheus counters a component state carries: its own outcome counters and `discarded_events_total` of each of
+its downstream nodes -/
+def CV (s : St) : Nat × Nat × Nat × Nat × (Nat → Nat) := (s.received, s.processed, s.filtered, s.failed, s.discarded)
+
+/-- the synchronised partner steps (`upSend`, `upClose`, `downRecv`) change no counter -/
+theorem partner_cv (c : Cfg) (s : St) (a : Act) (ha : (∃ x, a = .upSend x) ∨ a = .upClose ∨ ∃ k, a = .downRecv k) :
+    CV (partner c s a) = CV s := by
+  unfold partner
+  cases hs : step c s a with
+  | none => rfl
+  | some s' =>
+    rcases ha with ⟨x, rfl⟩ | rfl | ⟨k, rfl⟩
+    · simp only [step] at hs; split at hs <;> first | (cases hs; rfl) | simp at hs
+    · simp only [step] at hs; split at hs <;> first | (cases hs; rfl) | simp at hs
+    · simp only [step] at hs; split at hs <;> first | (cases hs; rfl) | simp at hs
+
+/-- **isolation (C16)**: a global step of node `p` changes no counter of any other node — neither its
+received/processed/filtered/failed counters nor the `discarded_events_total` it keeps for its own children -/
+theorem tree_counters_isolated (N N' : Net) (p : Path) (a : Act) (hg : gstep N p a = some N') (r : Path) (hr : r ≠ p) :
+    CV (N'.st r) = CV (N.st r) := by
+  obtain ⟨_, s', _, _, _, hkid, hoth⟩ := gstep_shape N N' p a hg
+  by_cases hk : ∃ k, r = k :: p
+  · obtain ⟨k, rfl⟩ := hk
+    rw [hkid]; unfold kidSync
+    split
+    · split
+      · exact partner_cv _ _ _ (Or.inl ⟨_, rfl⟩)
+      · rfl
+    · split
+      · exact partner_cv _ _ _ (Or.inr (Or.inl rfl))
+      · rfl
+  · rw [hoth r hr (fun k hk' => hk ⟨k, hk'⟩)]
+    unfold parSync
+    split
+    · split
+      · exact partner_cv _ _ _ (Or.inr (Or.inr ⟨_, rfl⟩))
+      · rfl
+    · rfl
+
+
 /-! ### non-vacuity -/
 
 def demoNetCfg : Path → Cfg
